@@ -68,11 +68,9 @@ Definition target_file_name (name : str) (prefix : option str) (scope : list sca
                 | Some p0 =>
                     if nonempty p0 then
                       let p := (match rev p0 with c :: r => if c =? c_dot then rev r else p0 | [] => p0 end) ++ [c_dot] in
-                      (* re.sub("^" + prefix, "", file_name) with the dot of the prefix matching any character *)
+                      (* re.sub("^" + escape(prefix), "", file_name) : the prefix with its dot, literally *)
                       let n := length p in
-                      let pre := Nat.pred n in
-                      let body := if Nat.leb n (length fname1) && starts_with (rev (tl (rev p))) fname1
-                                  then drop_n n fname1 else fname1 in
+                      let body := if starts_with p fname1 then drop_n n fname1 else fname1 in
                       p ++ body
                     else fname1
                 | None => fname1
